@@ -48,6 +48,16 @@ class CExecL3(CExec):
             if name == "PyErr_Format":
                 return Ptr(node_type(n), None, z3.IntVal(0))
             return None
+        if name in ("PyGILState_Ensure", "PyGILState_Release"):
+            for a in argn:
+                self.ev(st, a)
+            self.assumptions.add("PyGILState_Ensure/Release do not touch the error indicator or any modelled memory")
+            ty = node_type(n)
+            if ty.is_int():
+                t = self.fresh("gilstate")
+                st.path.append(z3.And(t >= ty.min, t <= ty.max))
+                return CV(ty, t)
+            return None
         if name in ("__Pyx_AddTraceback", "__Pyx_WriteUnraisable", "__Pyx_RefNannyFinishContextNogil"):
             for a in argn:
                 self.ev(st, a)
